@@ -357,8 +357,10 @@ def h5_md(draw, n):
 
 @st.composite
 def h5_table_specs(draw, tier="quick", allow_empty_axis=False, values="wild",
-                   ids="unicode", poke=False):
-    if allow_empty_axis and draw(st.integers(0, 5)) == 0:
+                   ids="unicode", poke=False, shape=None):
+    if shape is not None:
+        n, m = shape
+    elif allow_empty_axis and draw(st.integers(0, 5)) == 0:
         n, m = draw(st.sampled_from([(0, 1), (0, 3), (2, 0), (1, 0)]))
     else:
         n, m = draw(shapes(tier))
